@@ -1,21 +1,29 @@
 ---- MODULE IcapScen ----
-(* I-layer / scenario generator for C60 (adaptation/icap/ModXact): RESPMOD transactions.  Preview size relative to the
-   body, the ICAP server's behaviour, bypass.  Predicted delivery: what Squid gives the client. *)
+(* I-layer / scenario generator for C60 (adaptation/icap/ModXact): RESPMOD and REQMOD transactions.  Preview size relative
+   to the body, the ICAP server's behaviour, bypass; for REQMOD also the upload's size class and framing and whether the
+   origin reads at once or late behind a small window (the echo after a 204 / a bypassed failure then proceeds in partial
+   steps).  Predicted delivery: what Squid gives the client (RESPMOD) or the origin (REQMOD). *)
 EXTENDS Naturals, TLC, Json
 VARIABLES par, pred
 vars == <<par, pred>>
 Init == /\ par \in [units : 0..3, preview : {"off", "zero", "small", "huge"},
                     icap : {"200", "204", "204preview", "100then200", "100then204", "status500", "abortBeforeReply", "abortMidHead", "abortMidBody", "garbage"},
-                    bypass : BOOLEAN, mode : {"respmod"},
+                    bypass : BOOLEAN, mode : {"respmod", "reqmod"},
+                    size : {"na", "small", "over64k", "big", "huge"}, framing : {"na", "length", "chunked"}, slow : BOOLEAN,
                     aframing : {"length", "none"}]       \* does the adapted header announce its body length?
         /\ (par.icap \in {"204preview", "100then200", "100then204"} => par.preview # "off")
         /\ (par.icap \notin {"200", "100then200", "abortMidBody"} => par.aframing = "length")   \* only matters when an adapted message exists
+        /\ (par.mode = "respmod" => par.size = "na" /\ par.framing = "na" /\ ~par.slow)
+        /\ (par.mode = "reqmod" => par.units = 0 /\ par.size # "na" /\ par.framing # "na" /\ (par.slow => par.size \in {"big", "huge"})
+                                    /\ par.icap \notin {"abortMidHead", "abortMidBody", "garbage", "100then204"})
         /\ pred = "?"
 Early == par.icap \in {"status500", "abortBeforeReply", "abortMidHead", "garbage"}
-Predict == CASE par.icap \in {"200", "100then200"} -> "adapted"
+\* "any": whether a 204 outside the preview is legitimate depends on whether Squid offered Allow: 204 (it does when it can keep the whole body)
+Predict == CASE par.icap \in {"204", "100then204"} -> "any"
+             [] par.icap \in {"200", "100then200"} -> "adapted"
              [] par.icap \in {"204", "204preview", "100then204"} -> "virgin"
              [] Early -> IF par.bypass THEN "virgin" ELSE "error"
-             [] par.icap = "abortMidBody" -> "truncated-adapted"
+             [] par.icap = "abortMidBody" -> "adapted-maybe-truncated"
 Next == pred = "?" /\ pred' = Predict /\ UNCHANGED par
 Spec == Init /\ [][Next]_vars
 BypassEarlyIsVirgin == (pred # "?" /\ par.bypass /\ Early) => pred = "virgin"
